@@ -62,7 +62,7 @@ Respond(dl, cl, gl) ==
   /\ script' = Append(script, dl \o cl \o gl)
   /\ IF Continue(P, L2)
        THEN /\ g' = g2 /\ UNCHANGED <<phase, res>>
-       ELSE LET t == Tail(P, L2) IN
+       ELSE LET t == AfterLoop(P, L2) IN
             /\ g' = NavRun(g2, t.calls) /\ res' = t /\ phase' = "done"
   /\ UNCHANGED P
 
